@@ -167,21 +167,24 @@ def proxyImpl (origin cache : Impl) (max : Nat) : Impl where
 
 /-- the refill loop of EnumerateBlobs (overlay.go:211-256): repeatedly merge-enumerate lower and
 upper after the cursor with the remaining limit, forward what is not tombstoned, and resume after
-the last ref seen.  `fuel` bounds the number of rounds (each round with `seen > 0` advances). -/
+the last ref seen.  `fuel` bounds the number of rounds: a round either sends something, or skips at
+least one tombstoned entry, or is the last one, so `del.length + 2` rounds always suffice (the Go
+loop has no bound; it terminates because the cursor advances).  The answer is `none` when a
+sub-store's enumeration fails (overlay.go:241 returns that error) or the fuel runs out. -/
 def overlayEnum (lower upper : Impl) (del : SMap Unit) :
-    Nat → lower.σ → upper.σ → Bytes → Nat → List (Bytes × Nat) → Option (lower.σ × upper.σ × List (Bytes × Nat))
-  | 0, _, _, _, _, _ => none
+    Nat → lower.σ → upper.σ → Bytes → Nat → List (Bytes × Nat) → lower.σ × upper.σ × Option (List (Bytes × Nat))
+  | 0, ls, us, _, _, _ => (ls, us, none)
   | fuel + 1, ls, us, after, remaining, acc =>
-    if remaining = 0 then some (ls, us, acc) else
+    if remaining = 0 then (ls, us, some acc) else
     match lower.step ls (.enum after remaining), upper.step us (.enum after remaining) with
     | (ls1, .refs a), (us1, .refs b) =>
       let merged := MergedEnum.mergedEnumerate remaining [a, b]
       match merged.getLast? with
-      | none => some (ls1, us1, acc)
+      | none => (ls1, us1, some acc)
       | some last =>
         let live := merged.filter (fun p => !has del p.1)
         overlayEnum lower upper del fuel ls1 us1 last.1 (remaining - live.length) (acc ++ live)
-    | (ls1, _), (us1, _) => some (ls1, us1, acc)
+    | (ls1, _), (us1, _) => (ls1, us1, none)
 
 def overlayImpl (lower upper : Impl) : Impl where
   σ := lower.σ × upper.σ × SMap Unit
@@ -213,9 +216,9 @@ def overlayImpl (lower upper : Impl) : Impl where
           | (ls1, o) => ((ls1, us1, del), o)
         | (us1, o) => ((ls, us1, del), o)
     | .enum after limit =>
-      match overlayEnum lower upper del (limit + 1) ls us after limit [] with
-      | some (ls1, us1, l) => ((ls1, us1, del), .refs l)
-      | none => ((ls, us, del), .err)
+      match overlayEnum lower upper del (del.length + 2) ls us after limit [] with
+      | (ls1, us1, some l) => ((ls1, us1, del), .refs l)
+      | (ls1, us1, none) => ((ls1, us1, del), .err)
 
 /-! ## two-way shard, replica, cond and union -/
 
@@ -262,12 +265,15 @@ def replica2Impl (a b : Impl) : Impl where
         | (sb1, o) => ((sa1, sb1), o)
     | .stat k =>                                      -- replica.go:149: first reporter wins
       match a.step sa (.stat k), b.step sb (.stat k) with
-      | (sa1, .sized n), (sb1, _) => ((sa1, sb1), .sized n)
-      | (sa1, .notExist), (sb1, o) => ((sa1, sb1), o)
-      | (sa1, _), (sb1, _) => ((sa1, sb1), .err)
-    | .rm k =>                                        -- replica.go:240: all replicas
-      match a.step sa (.rm k), b.step sb (.rm k) with
-      | (sa1, .ok), (sb1, .ok) => ((sa1, sb1), .ok)
+      | (sa1, .sized n), (sb1, .sized _) => ((sa1, sb1), .sized n)
+      | (sa1, .sized n), (sb1, .notExist) => ((sa1, sb1), .sized n)
+      | (sa1, .notExist), (sb1, .sized n) => ((sa1, sb1), .sized n)
+      | (sa1, .notExist), (sb1, .notExist) => ((sa1, sb1), .notExist)
+      | (sa1, _), (sb1, _) => ((sa1, sb1), .err)              -- errgroup: any replica error fails the call
+    | .rm k =>                                        -- replica.go:245: all replicas; "best effort":
+      match a.step sa (.rm k), b.step sb (.rm k) with  -- nil as soon as ANY replica reported success
+      | (sa1, .ok), (sb1, _) => ((sa1, sb1), .ok)
+      | (sa1, _), (sb1, .ok) => ((sa1, sb1), .ok)
       | (sa1, _), (sb1, _) => ((sa1, sb1), .err)
     | .enum after limit =>
       match enum2 a b sa sb after limit with
